@@ -450,7 +450,10 @@ def monitor(script):
                     pass
                 if p not in accepted and i not in accepted:
                     exp = {"unknown", "wrongchain"}
-                    if v not in exp and v not in ("badwork", "badbits"):
+                    # a mark at or below the in-memory window removes nothing (known finding C17:deep-mark-ineffective):
+                    # what it was meant to remove is still held, so its children are not orphans
+                    under_deep = any(x == p or (height(x) is not None and is_anc(x, p)) for x in deep_marks)
+                    if v not in exp and v not in ("badwork", "badbits") and not under_deep:
                         m.hit("C08:verdict-orphan", f"submission of {i} whose parent {p} was never accepted answered `{v}`")
                 if v.startswith("err:"):
                     m.hit("C08:verdict-internal-error", f"submission of {i} answered with an internal error `{v}`, not one of the reference verdicts")
